@@ -21,7 +21,7 @@ impl Property for C10 {
         "C10"
     }
     fn rule(&self) -> &'static str {
-        "case = parametric instance (parameters anywhere in objective and active constraints, degree<=4, any representation; removed constraints, hints, dependencies present) x parameter assignment (complete | complete + unrelated extras | missing one) | instance -> parametric -> with_parameters({}) round trip; \
+        "case = parametric instance (parameters anywhere in objective and active constraints, degree<=4, any representation; removed constraints, hints, dependencies present) x parameter assignment (complete | complete + unrelated extras | missing one, possibly with an unrelated id between the declared ones); long id-sorted linear functions with a parameter id listed twice; sweep: parameter multiplicity 5..300 inside one monomial | instance -> parametric -> with_parameters({}) round trip; \
          oracle = exact partial evaluation of every parametric function at p; non-trivial = a parameter multiplied with a decision variable; distinct = sha256(instance, parameter ids, assignment)"
     }
     fn required_labels(&self) -> Vec<String> {
